@@ -215,7 +215,7 @@ impl Prop for C14 {
     }
     fn rule(&self) -> &'static str {
         "arrows: 8 directions x every head glyph valid for the direction x line character variants x length 1..12 (thorough 40) x offsets; bullets {*,o,O} x 8 directions x {at the end, mid-line} x length 1..8 (thorough 20); \
-         rounded outlines w 1..10 x h 1..6 (thorough 30 x 15) x 4 corner styles x a one-cell horizontal stub on the left or right side at every row (so the outline is not endorsed as a rect). \
+         rounded outlines w 1..10 x h 1..6 (thorough 30 x 15) x 4 corner styles x a one-cell horizontal stub on the left or right side at every row, attached to the bar or through a '+' junction (so the outline is not endorsed as a rect). \
          Oracles in exact integer arithmetic: one filled triangle whose tip is on the line's axis beyond its end and whose base straddles the axis; one marked line whose marked end is the centre of the bullet's cell, bullet not shown as text; \
          four arcs whose end points each meet exactly one line end, whose centre lies inside the outline and which bulge outward. distinct_nontrivial = distinct (family, direction/style, glyph) outcomes that passed"
     }
@@ -268,7 +268,9 @@ impl Prop for C14 {
                             for side in 0..2 {
                                 for row in 0..h {
                                     let (ox, oy) = offs3[(w + h + row) % offs3.len()];
-                                    f(Case::sn("outline", vec![w as i64, h as i64, cs as i64, side, row as i64, ox + 1, oy]));
+                                    for junction in 0..2 {
+                                        f(Case::sn("outline", vec![w as i64, h as i64, cs as i64, side, row as i64, ox + 1, oy, junction]));
+                                    }
                                 }
                             }
                         }
@@ -339,10 +341,17 @@ impl Prop for C14 {
                 for (r, l) in rows.iter().enumerate() {
                     cv.text(ox as i32, (oy + r) as i32, l);
                 }
+                let junction = n.get(7).copied().unwrap_or(0) == 1;
                 if side == 0 {
                     cv.put(ox as i32 - 1, (oy + 1 + row) as i32, '-');
+                    if junction {
+                        cv.put(ox as i32, (oy + 1 + row) as i32, '+');
+                    }
                 } else {
                     cv.put((ox + w + 2) as i32, (oy + 1 + row) as i32, '-');
+                    if junction {
+                        cv.put((ox + w + 1) as i32, (oy + 1 + row) as i32, '+');
+                    }
                 }
                 // render with absolute coordinates: pad rows/columns
                 let body = cv.render();
